@@ -1,2 +1,21 @@
-(** C17 -- theorems under construction *)
-From MX Require Import Exec.Model Exec.Spec Exec.Sim Exec.Top.
+(** C17 — the error traceback. *)
+From Coq Require Import List ZArith Bool.
+From MX Require Import Exec.Model Exec.Spec Exec.Sim Exec.Results Exec.Top.
+Import ListNotations.
+
+(** PARTIAL.  Proved: after a failing top-level evaluation the recorded
+    traceback is non-empty, starts (outermost first) with the requested
+    element, the error kind is recorded, and nothing is left in the
+    rolled-back list — whatever happened before (any [Inv] state: earlier
+    failures, handled or not, leave no trace).  Together with C05 the error
+    is the specification's error.
+    Not proved: that the remaining entries are exactly the executing chain
+    with the call-site lines (needs a specification-level chain; the
+    reference-interpreter oracle and the correspondence check it on every
+    run). *)
+Theorem C17_traceback_outermost_partial : forall fuel st i k st' cl,
+  eval_top fuel st i = (Err k, st') -> Inv st -> s_stack st = [] ->
+  lookup_cell (s_cells st) (fst i) = Some cl ->
+  exists ln rest, s_err st' = Some (k, (i, ln) :: rest) /\ s_rolled st' = [].
+Proof. exact traceback_outermost. Qed.
+Print Assumptions C17_traceback_outermost_partial.
